@@ -922,6 +922,7 @@ CONTROL = [
     ('error construction = opaque token', r'Error as From<.*>>::from$', c_err),
     ('error construction = opaque token', r'starlark_syntax::Error::new_(other|kind|value|native)', c_err),
     ('error construction = opaque token', r'^(crate::)?Error::new_(other|kind|value|native)', c_err),
+    ('fmt machinery (message formatting) = opaque value', r'^(core|std|alloc)::fmt::|^(anyhow::__private::)?must_use::<', lambda ex, st, args, path, callee: ret(Opaque('fmt'), path)),
     ('panic entry points', r'^(core|std)::panicking::|^core::option::(unwrap_failed|expect_failed)|^core::result::unwrap_failed|panic_cold|::panic_fmt', c_panic),
 ]
 
